@@ -578,6 +578,10 @@ def run(ctx):
 
     def produced(ev):
         """what a path event hands out: ('yield', expr) / ('yield-from', call) / None"""
+        if ev[0] == "loop" and isinstance(ev[1], ast.For) and isinstance(ev[1].iter, ast.Call) and len(ev[1].body) == 1 \
+                and isinstance(ev[1].body[0], ast.Expr) and isinstance(ev[1].body[0].value, ast.Yield) \
+                and dotted(ev[1].body[0].value.value) == dotted(ev[1].target):
+            return ("yield-from", ev[1].iter)   # `yield from f(x)` in canonical form: for v in f(x): yield v
         if ev[0] != "stmt":
             return None
         st = ev[1]
@@ -595,13 +599,13 @@ def run(ctx):
         the relationship is not external."""
         probs = []
         n_out = 0
-        for loop, pths, al in loop_paths(f.node):
+        for loop, pths, al in loop_paths(fnode_of[f]):
             for pth in pths:
                 for i, ev in enumerate(pth.events):
                     # reading target_part needs the not-external decision
                     node = ev[1] if ev[0] in ("stmt", "cond") else None
                     if node is not None and any(isinstance(x, ast.Attribute) and x.attr == "target_part" for x in ast.walk(node)):
-                        fs = entry_facts(f.node, loop, al, prog, f) + P_.facts(pth, i, al)
+                        fs = entry_facts(fnode_of[f], loop, al, prog, f) + P_.facts(pth, i, al)
                         if not P_.implied(fs, lambda a: a[0] == "truthy" and a[1].endswith(".is_external") and a[2] is False):
                             probs.append("target_part is read on a path that has not excluded external relationships (line %d)" % node.lineno)
                     pr = produced(ev)
@@ -618,21 +622,35 @@ def run(ctx):
                         continue
                     n_out += 1
                     fs = P_.facts(pth, i, al)
+                    ln_ = getattr(ev[1], "lineno", 0)
                     # the visited collection is whichever the path has tested the part against (and must then mark it in)
                     tested = {a[2] for a in fs if a[0] == "in" and a[1] == subj and a[3] is False}
                     if not tested:
-                        probs.append("a target part is handed out (line %d) on a path that has not tested `part not in visited`" % ev[1].lineno)
+                        probs.append("a target part is handed out (line %d) on a path that has not tested `part not in visited`" % ln_)
                     adds = [j for j, e2 in enumerate(pth.events) if e2[0] == "stmt" and any(
                         isinstance(c, ast.Call) and isinstance(c.func, ast.Attribute) and c.func.attr == "add" and (P_.norm(c.func.value, al) in tested or not tested)
                         and c.args and P_.norm(c.args[0], al) == subj for c in ast.walk(e2[1]))]
                     if not adds:
-                        probs.append("the part handed out at line %d is never marked visited on that path" % ev[1].lineno)
+                        probs.append("the part handed out at line %d is never marked visited on that path" % ln_)
                     elif what == "rels" and min(adds) > i:
-                        probs.append("recursion at line %d happens before the part is marked visited (cycles recurse forever)" % ev[1].lineno)
+                        probs.append("recursion at line %d happens before the part is marked visited (cycles recurse forever)" % ln_)
         if n_out == 0:
             return None
         return sorted(set(probs))
 
+    from sa.desugar import desugar as _dsg
+
+    # the relationship walker: a nested generator of iter_rels, or a method of the class it delegates to (self./cls.), that recurses
+    ird = _dsg(ir.node)
+    wcands = [(n, n.name, ir) for n in ast.walk(ird) if isinstance(n, ast.FunctionDef) and n is not ird]
+    for c_ in ast.walk(ird):
+        if isinstance(c_, ast.Call) and isinstance(c_.func, ast.Attribute) and dotted(c_.func.value) in ("self", "cls") and c_.func.attr in opc.methods:
+            wm_ = opc.methods[c_.func.attr]
+            wcands.append((_dsg(wm_.node), wm_.name, wm_))
+    walkers = [(n, nm, fi) for n, nm, fi in wcands if any(
+        isinstance(c_, ast.Call) and (dotted(c_.func) or "").split(".")[-1] == nm for c_ in ast.walk(n))]
+    wnode, wname, wfi = walkers[0] if len(walkers) == 1 else (None, None, None)
+    fnode_of = {ip: _dsg(ip.node), ir: wnode if wnode is not None else ird}
     for f, label, what in ((ip, "OpcPackage.iter_parts", "part"), (ir, "OpcPackage.iter_rels", "rels")):
         probs = visit_once(f, what)
         if probs is None:
@@ -644,20 +662,24 @@ def run(ctx):
     # iter_rels yields every rel of every collection before any filtering: on every path through the walker's loop body the first
     # event is `yield <loop variable>`, the loop ranges over all values of the collection it was given, and the walk starts at the
     # package's own relationships
-    walk = [n for n in ast.walk(ir.node) if isinstance(n, ast.FunctionDef) and n is not ir.node]
     good = False
-    if walk:
-        w = walk[0]
-        for loop in [n for n in ast.walk(w) if isinstance(n, ast.For)]:
+    if wnode is None:
+        ctx.error("OpcPackage.iter_rels", "the recursive relationship walker is not recognised")
+    else:
+        w = wnode
+        wparams = [a.arg for a in w.args.args if a.arg not in ("self", "cls")]
+        for loop in [n for n in ast.walk(w) if isinstance(n, ast.For) and not (len(n.body) == 1 and isinstance(n.body[0], ast.Expr)
+                                                                                 and isinstance(n.body[0].value, ast.Yield) and isinstance(n.iter, ast.Call)
+                                                                                 and (dotted(n.iter.func) or "").split(".")[-1] == wname)]:
             pths = P_.enum_paths(loop.body)
             first_ok = bool(pths) and all(p.events and produced(p.events[0]) is not None and produced(p.events[0])[0] == "yield"
                                           and isinstance(loop.target, ast.Name) and dotted(produced(p.events[0])[1]) == loop.target.id for p in pths)
             it = loop.iter
-            src_ok = isinstance(it, ast.Call) and dotted(it.func) == w.args.args[0].arg + ".values" or dotted(it) == w.args.args[0].arg
+            src_ok = bool(wparams) and (isinstance(it, ast.Call) and dotted(it.func) == wparams[0] + ".values" or dotted(it) == wparams[0])
             good = good or (first_ok and src_ok)
-        rec = any(isinstance(n, ast.YieldFrom) and isinstance(n.value, ast.Call) and dotted(n.value.func) == w.name for n in ast.walk(w))
-        top = any(isinstance(n, ast.YieldFrom) and isinstance(n.value, ast.Call) and dotted(n.value.func) == w.name
-                  and dotted(n.value.args[0]) == "self._rels" for n in ast.walk(ir.node))
+        rec = any(isinstance(n, ast.Call) and (dotted(n.func) or "").split(".")[-1] == wname for n in ast.walk(w))
+        top = any(isinstance(n, ast.Call) and (dotted(n.func) or "").split(".")[-1] == wname and n.args and dotted(n.args[0]) == "self._rels"
+                  for n in ast.walk(ird) if not any(n is x for x in ast.walk(w)))
         good = good and rec and top
     if good:
         ctx.ok("R1.2", "OpcPackage.iter_rels:all", sample={"yields": "every relationship of the package and of each reached part, unfiltered"})
@@ -665,7 +687,7 @@ def run(ctx):
         ctx.violation("R1.2", "OpcPackage.iter_rels:all", "some relationships are filtered out of the traversal", file=ir.file, line=ir.line)
     # iter_parts is driven by iter_rels
     from sa.itersrc import source_of as _source_of
-    if any(isinstance(n, ast.For) and _source_of(ip.node, n.iter, prog, ip)["terminal"] == "self.iter_rels()" for n in ast.walk(ip.node)):
+    if any(isinstance(n, ast.For) and _source_of(fnode_of[ip], n.iter, prog, ip)["terminal"] == "self.iter_rels()" for n in ast.walk(fnode_of[ip])):
         ctx.ok("R1.2", "OpcPackage.iter_parts:source", nontrivial=False)
     else:
         ctx.violation("R1.2", "OpcPackage.iter_parts:source", "iter_parts does not follow iter_rels", file=ip.file, line=ip.line)
